@@ -30,7 +30,7 @@ type Buffer struct {
 func NewBufferedReadCloser(r io.ReadCloser, maxBytes, maxMemBytes int64) (io.ReadCloser, error) {
 	buf := &Buffer{
 		maxBytes:    maxBytes,
-		maxMemBytes: maxMemBytes,
+		maxMemBytes: max(maxMemBytes, 0),
 	}
 
 	_, err := io.Copy(buf, r)
@@ -45,7 +45,7 @@ func NewBufferedReadCloser(r io.ReadCloser, maxBytes, maxMemBytes int64) (io.Rea
 func NewBufferedWriteCloser(maxBytes, maxMemBytes int64) *Buffer {
 	return &Buffer{
 		maxBytes:    maxBytes,
-		maxMemBytes: maxMemBytes,
+		maxMemBytes: max(maxMemBytes, 0), // a negative limit would make Write slice out of range
 	}
 }
 
